@@ -33,8 +33,8 @@ Theorem stray_brace_end_to_end ul ud lexq unq fuel txt rest :
 Proof.
   intros Hpl s e.
   assert (Hlex : lex_items ul ud (S fuel) false s = Ok [e]).
-  { unfold lex_items, lex_run, entry_state.
-    destruct (stray_brace ul ud s fuel lex_init txt rest Hpl) as (l' & Hr & Ho); [cbn; lia | reflexivity|].
+  { unfold lex_items, lex_run, lex_run_at, entry_state.
+    destruct (stray_brace ul ud s 0%Z (Z.le_refl 0) fuel lex_init txt rest Hpl) as (l' & Hr & Ho); [cbn; lia | reflexivity|].
     rewrite Hr. cbn [bind]. rewrite Ho. reflexivity. }
   split; [exact Hlex|]. split.
   - assert (Hpos : t_pos e <= N.of_nat (length s)).
